@@ -448,6 +448,9 @@ func unrollRange(info *types.Info, pkg *types.Package, rs *ast.RangeStmt, table 
 		}
 		if sel, ok := parents[id].(*ast.SelectorExpr); ok && sel.X == ast.Expr(id) {
 			for _, r := range rows {
+				if r.fields == nil && purePath(info, r.whole) {
+					continue // a row that names a variable or its address (&ps.Header1): v.f is (row).f
+				}
 				if r.fields == nil || r.fields[sel.Sel.Name] == nil {
 					okBody = false
 				}
@@ -688,6 +691,34 @@ func (c *cloner) register(old, neu interface{}) {
 	if on, ok := old.(ast.Node); ok {
 		if obj, ok := c.info.Implicits[on]; ok && c.info.Implicits != nil {
 			c.info.Implicits[neu.(ast.Node)] = obj
+		}
+	}
+}
+
+
+// purePath: e names a variable, a field path from one, or the address of such (x, x.f.g, &x.f): reading it twice gives
+// the same thing and has no effect.
+func purePath(info *types.Info, e ast.Expr) bool {
+	e = ast.Unparen(e)
+	if u, ok := e.(*ast.UnaryExpr); ok && u.Op == token.AND {
+		e = ast.Unparen(u.X)
+	}
+	for {
+		switch x := e.(type) {
+		case *ast.SelectorExpr:
+			if s, ok := info.Selections[x]; !ok || s.Kind() != types.FieldVal {
+				// a qualified package-level variable
+				if _, isVar := info.ObjectOf(x.Sel).(*types.Var); isVar {
+					return true
+				}
+				return false
+			}
+			e = ast.Unparen(x.X)
+		case *ast.Ident:
+			_, isVar := info.ObjectOf(x).(*types.Var)
+			return isVar
+		default:
+			return false
 		}
 	}
 }
